@@ -31,6 +31,12 @@ def generate(rng, tier):
             p, nd = rng.choice(fields)
             c = replace_at(c, p, [nd[0], nd[1], nd[2], ty_cptr(ty_id(rng.choice(owners) + 'Vftable')), nd[4]])
         cases.append(c)
+    # name clashes: a user type named like a generated vftable struct, duplicate definitions
+    from .c14 import add_collision
+    for i in range(n // 3):
+        c = add_collision(rng, gen.world(rng, 'x%d' % i, opts=o))
+        c = [x for x in c if tag(x) != 'expect']
+        cases.append(c)
     for c in cases:
         c.append([S('vseed'), rng.randrange(1 << 30)])
     return cases
